@@ -1,6 +1,6 @@
 """A3 seeded conditional constant propagation, A4 provenance / expression
 reconstruction from MIR."""
-from .facts import op_place, op_const, place_key
+from .facts import op_place, op_const, place_key, _pk
 from . import cfg as C
 
 # ---------------------------------------------------------------------------
@@ -376,11 +376,9 @@ class Sccp:
             if p["l"] in self.mutb and not p["p"]:
                 pass
             if self.field_model is not None and p["p"]:
-                last = p["p"][-1]
-                if isinstance(last, dict) and "f" in last:
-                    v = self.field_model(last.get("of"), last["f"])
-                    if v is not None:
-                        return v
+                v = self._field_value(p)
+                if v is not None:
+                    return v
             return self._read(env, place_key(p))
         c = op_const(op)
         if c is not None and c.get("val") is not None:
@@ -388,10 +386,20 @@ class Sccp:
         return None
 
     def _field_value(self, place):
-        if self.field_model is not None and place["p"]:
-            last = place["p"][-1]
-            if isinstance(last, dict) and "f" in last:
-                return self.field_model(last.get("of"), last["f"])
+        """The row's value for a place that reads a modelled field, or something inside it (`(low.threads as Some).0`)."""
+        if self.field_model is None or not place["p"]:
+            return None
+        proj = place["p"]
+        for i in range(len(proj) - 1, -1, -1):
+            x = proj[i]
+            if isinstance(x, dict) and "f" in x:
+                v = self.field_model(x.get("of"), x["f"])
+                if v is not None:
+                    for q in proj[i + 1:]:
+                        v = self._project(v, _pk(q) if not isinstance(q, str) else q)
+                        if v is None:
+                            return None
+                    return v
         return None
 
     def _rvalue(self, env, rv):
@@ -819,3 +827,20 @@ def ret_set(sx):
     for v in sx.ret_values.values():
         out |= set(value_set(v))
     return out
+
+
+def operand_at(sx, bb, stmt, op):
+    """The abstract value of operand `op` as read by statement `stmt` of block `bb` under the propagation result `sx`
+    (the block's statements before `stmt` are replayed on the block's entry environment)."""
+    if bb not in sx.exec_blocks:
+        return None
+    env = dict(sx.env_in.get(bb, {}))
+    for st in sx.fn.blocks[bb]["stmts"]:
+        if st is stmt:
+            break
+        if st["k"] == "assign":
+            val = sx._rvalue(env, st["rv"])
+            if st["rv"]["k"] in ("ref", "rawptr") and st["rv"].get("mut", True):
+                sx._write(env, place_key(st["rv"]["place"]), None)
+            sx._write(env, place_key(st["place"]), val)
+    return sx._operand(env, op)
